@@ -199,6 +199,9 @@ def cases(tier, seed):
                 for final in (True, False):
                     for replace in (True, False):
                         yield {"style": name, "seq": s, "prefix": prefix, "ending": "\n", "final": final, "replace": replace}
+    for name in SPECIAL_NAMES:
+        for extra in ([], ["--no-replace"], ["--fallback-dot-license"], ["--skip-unrecognised"]):
+            yield {"special": name, "extra": extra}
     if tier == "quick":
         first = TOKENS[seed % 10]
         for tup in itertools.product(TOKENS, repeat=deep):
@@ -214,7 +217,36 @@ def head_blank_stripped(lines):
     return lines[i:]
 
 
+SPECIAL_NAMES = ["zlib.LICENSE", "third_party/openssl.License", "Notes.LICENSE", "README.PY", "script.SH", "data.LICENSE.txt", "x.license.py"]
+
+
+def evaluate_special(c) -> R:
+    """File names whose extension differs from a table entry only in letter case (lint treats '*.LICENSE' as an ordinary covered file):
+    whatever annotate decides to do, the lines of the file survive, in order."""
+    r = R()
+    root = fresh_dir("c08")
+    name = c["special"]
+    body = ["Permission is hereby granted, free of charge, to any person", "obtaining a copy of this software; line two of the body", "", "last line of the body"]
+    path = root / name
+    path.parent.mkdir(parents=True, exist_ok=True)
+    path.write_text("\n".join(body) + "\n")
+    res = annot.annotate(root, ["--copyright", "Jane Doe", "--license", "MIT", "--year", "2020", *c["extra"]], [path])
+    if res.exc:
+        r.violation(f"crash|special|{res.exc}", f"annotate {c['extra']} on {name!r}: {res.exc_repr}")
+        return r
+    new = path.read_text().split("\n")
+    it = iter(new)
+    lost = [l for l in body if l and not any(l == x for x in it)]
+    if lost:
+        r.violation(f"special|body-lines-lost|{name.rsplit('.', 1)[-1]}", f"annotate {c['extra']} on {name!r} (exit {res.exit_code}): body lines {lost!r} are gone; file now {path.read_text()[:200]!r}")
+    r.outcome = f"special-exit{res.exit_code}"
+    r.tags.append("special")
+    return r
+
+
 def evaluate(c) -> R:
+    if "special" in c:
+        return evaluate_special(c)
     r = R()
     st = all_styles("thorough")[c["style"]]
     fname, extra, single, multi, _foreign = st
